@@ -4,9 +4,9 @@ package main
 // selection. C06.identity — non-directive structure is rebuilt unchanged by process1/process2.
 
 import (
-	"go/token"
 	"fmt"
 	"go/constant"
+	"go/token"
 	"go/types"
 	"regexp/syntax"
 	"strings"
@@ -264,7 +264,9 @@ func ruleC10Lookup(p *Prog, r *Result) {
 	}), "ErrRefNotFound", func(pa *Path) (bool, string) {
 		return isFailure(pa) && wraps(lastResult(pa), "ErrRefNotFound"), "a missing key yields a value (nil) instead of an error"
 	})
-	tail := func(t *T) bool { return t.Op == "slice" && partsP(t.Args[0]) && t.Args[1].IsConst("1") && (len(t.Args) < 3 || t.Args[2] == nil || t.Args[2].IsConst("end") || t.Args[2].Op == "end") }
+	tail := func(t *T) bool {
+		return t.Op == "slice" && partsP(t.Args[0]) && t.Args[1].IsConst("1") && (len(t.Args) < 3 || t.Args[2] == nil || t.Args[2].IsConst("end") || t.Args[2].Op == "end")
+	}
 	pp.all("a present key continues with the rest of the path", selectPaths(rest, func(pa *Path) bool {
 		return guardPol(pa, "kind", objP, "map") == 1 && guardPol(pa, "has", objP, TM(first)) == 1
 	}), "getPath(obj[parts[0]], parts[1:]) — as a call, or as the next round of a loop", func(pa *Path) (bool, string) {
@@ -493,20 +495,20 @@ func ruleC10Universe(p *Prog, r *Result) {
 						}
 					}
 					// the document being evaluated is taken from a list: that list is the one its references see
-				for _, d := range ci.Common().Args {
-					u, ok := d.(*ssa.UnOp)
-					if !ok || u.Op != token.MUL {
-						continue
+					for _, d := range ci.Common().Args {
+						u, ok := d.(*ssa.UnOp)
+						if !ok || u.Op != token.MUL {
+							continue
+						}
+						ia, ok := u.X.(*ssa.IndexAddr)
+						if !ok || !strings.HasSuffix(d.Type().String(), "bkl.Document") {
+							continue
+						}
+						if ia.X != a && (accessPath(ia.X) == "" || accessPath(ia.X) != accessPath(a)) {
+							bad = fmt.Sprintf("the document is taken from %s but its references are resolved against %s: cross-document references see other copies of the documents than the ones being evaluated", describeValue(p, ia.X), describeValue(p, a))
+						}
 					}
-					ia, ok := u.X.(*ssa.IndexAddr)
-					if !ok || !strings.HasSuffix(d.Type().String(), "bkl.Document") {
-						continue
-					}
-					if ia.X != a && (accessPath(ia.X) == "" || accessPath(ia.X) != accessPath(a)) {
-						bad = fmt.Sprintf("the document is taken from %s but its references are resolved against %s: cross-document references see other copies of the documents than the ones being evaluated", describeValue(p, ia.X), describeValue(p, a))
-					}
-				}
-				r.Check(bad == "", "C10.universe", key, p.InstrPos(in), "the list of documents that references are resolved against is fixed before any document is evaluated",
+					r.Check(bad == "", "C10.universe", key, p.InstrPos(in), "the list of documents that references are resolved against is fixed before any document is evaluated",
 						bad+": a document evaluated early cannot see documents added later (forward $match references fail, ambiguous ones resolve silently)")
 				}
 			}
